@@ -112,8 +112,8 @@ Print Assumptions c13_slist_code_is_model.
    Proofs/DListCode.v: dlist_code_is_model_stmt, printed below) says, for all heaps and all non-nil list / node ids:
    Len, Init, lazyInit, Front, Back, DNode.Next / Prev, insert, insertValue, remove, move = the model's llen, init,
    lazy_init, front, back, node_next / node_prev, insert, insert_value, remove, move; Remove, PushFront, PushBack,
-   InsertBefore / After, PushFrontNode / PushBackNode, InsertNodeBefore / After, MoveToFront = their guards (owned) +
-   lazy_init + the core, as in Model.DList.step.  NOT covered: MoveToBack / MoveBefore / MoveAfter, PushBackDList /
+   InsertBefore / After, PushFrontNode / PushBackNode, InsertNodeBefore / After, MoveToFront / ToBack / Before / After = their
+   guards (owned) + lazy_init + the core, as in Model.DList.step.  NOT covered: PushBackDList /
    PushFrontDList, NewDoubly, iter.go.  (The statement lives in Proofs/ because Gen/DListCode.v and Gen/SListCode.v both
    define Heap / mkHeap / h_fresh and this file imports the SList names.) *)
 Theorem c13_dlist_code_is_model : V.Proofs.DListCode.dlist_code_is_model_stmt.
